@@ -403,6 +403,79 @@ def par_facts(fn):
     return zero, nonzero, acts(inc)
 
 
+INV_TU = r'''
+#include "rkcommon/common.h"
+#include "rkcommon/os/FileName.h"
+#include "rkcommon/utility/PseudoURL.h"
+#include "rkcommon/utility/StringManip.h"
+#include "rkcommon/utility/ArgumentList.h"
+namespace c18inst {
+// make clang declare the implicit special members that matter (value types that are copied around)
+inline void use(rkcommon::FileName &f, rkcommon::utility::PseudoURL &u, rkcommon::utility::ArgumentList &l) {
+  rkcommon::FileName f2(f); f2 = f; rkcommon::FileName f3; rkcommon::utility::PseudoURL u2(u); u2 = u;
+  rkcommon::utility::ArgumentList l2(l); l2 = l;
+}
+}
+'''
+
+
+def norm_sig(t):
+    import re
+    t = t.replace("rkcommon::utility::", "").replace("rkcommon::", "")
+    return re.sub(r"\s+", " ", t).strip()
+
+
+def inventory(repo, work):
+    """every declaration of namespace rkcommon (incl. rkcommon::utility) made by the anchored headers: functions, operators,
+    templates, and per class constructors / destructor / methods / conversions / friends / data members / the implicit special
+    members clang declares for the instantiation TU.  -> sorted list of keys"""
+    os.makedirs(work, exist_ok=True)
+    src = os.path.join(work, "c18_inv.cpp")
+    open(src, "w").write(INV_TU)
+    ast = os.path.join(work, "ast_inv.json")
+    inc = os.path.join(os.path.dirname(os.path.dirname(HERE)), "build", "include")
+    with open(ast, "w") as f:
+        p = subprocess.run(["clang++", "-std=c++11", "-I" + repo, "-I" + inc, "-fsyntax-only", "-Xclang", "-ast-dump=json",
+                            "-Xclang", "-ast-dump-filter=rkcommon", src], stdout=f, stderr=subprocess.PIPE, timeout=180,
+                           universal_newlines=True)
+    if p.returncode != 0:
+        raise RuntimeError("clang failed: " + p.stderr[-2000:])
+    docs = load_docs(ast)
+    out = set()
+
+    def sig(n):
+        return norm_sig(n.get("type", {}).get("qualType", ""))
+
+    def visit(n, scope, in_class):
+        for c in inner(n):
+            k = c.get("kind")
+            nm = c.get("name")
+            if k == "NamespaceDecl":
+                visit(c, scope + ([nm] if nm not in ("rkcommon",) else []), False)
+            elif k == "CXXRecordDecl" and c.get("completeDefinition") and nm:
+                visit(c, scope + [nm], True)
+            elif k == "FriendDecl":
+                visit(c, scope + ["friend"], in_class)
+            elif k in ("FunctionDecl", "CXXMethodDecl", "CXXConstructorDecl", "CXXDestructorDecl", "CXXConversionDecl"):
+                if c.get("previousDecl") and not in_class:
+                    continue
+                tag = " (implicit)" if c.get("isImplicit") else (" (defaulted)" if c.get("explicitlyDefaulted") == "default" else "")
+                out.add("::".join(scope + [nm]) + " : " + sig(c) + tag)
+            elif k == "FunctionTemplateDecl":
+                if c.get("previousDecl"):
+                    continue
+                fds = [x for x in inner(c) if x.get("kind") in ("FunctionDecl", "CXXMethodDecl")]
+                out.add("::".join(scope + [nm + "<>"]) + " : " + (sig(fds[0]) if fds else ""))
+            elif k == "FieldDecl" and in_class:
+                out.add("::".join(scope + [nm]) + " : field " + sig(c))
+            elif k == "VarDecl" and not in_class:
+                out.add("::".join(scope + [nm]) + " : variable " + sig(c))
+    for d in docs:
+        if d.get("kind") == "NamespaceDecl" and d.get("name") == "rkcommon":
+            visit(d, [], False)
+    return sorted(out)
+
+
 def coq_list(xs):
     return "[" + "; ".join(xs) + "]"
 
